@@ -234,6 +234,11 @@ def run_case(case):
         y0a = torch.cat([y0, torch.zeros(B, 1, dtype=dtype)], dim=1)
         ya = torchsde.sdeint(UserAug(true_sde), y0a, ts, bm=mk(), method=combo["method"], dt=tm["dt"], options=opts,
                              **akw)
+        # the same independent augmentation from an initial state moved by 1e-15 (relative): how far its log-ratio moves is
+        # the yardstick for "equal up to rounding" on this problem (near-orthogonal f - h and g, adaptive schedules that
+        # amplify last-bit differences, ...)
+        ya_j = torchsde.sdeint(UserAug(true_sde), y0a * (1.0 + 1e-15), ts, bm=mk(), method=combo["method"], dt=tm["dt"],
+                               options=opts, **akw)
         ts2 = torch.stack([ts[0], ts[-1]])
         _, lq_coarse = torchsde.sdeint(sde, y0, ts2, bm=mk(), method=combo["method"], dt=tm["dt"], options=opts,
                                        logqp=True, **akw, **nkw)
@@ -254,6 +259,9 @@ def run_case(case):
             ys_2, lq_2, _ = entry(sde, ys_1[-1], ts_r[1:], bm=bm_r, method=combo["method"], dt=0.125, options=opts,
                                   logqp=True, extra=True, extra_solver_state=ex_1, **nkw)
         checks += 1
+        if tuple(lq_one.shape) != (2, B) or tuple(lq_1.shape) != (1, B) or tuple(lq_2.shape) != (1, B):
+            return fail("shape", f"logqp output shapes {tuple(lq_one.shape)} (3 times), {tuple(lq_1.shape)} and "
+                                 f"{tuple(lq_2.shape)} (2 times each) for batch size {B}")
         e_r = float((torch.cat([lq_1, lq_2]) - lq_one).abs().max()) / max(1.0, float(lq_one.abs().max()))
         if not e_r <= 1e-12:
             return fail("additivity_across_restart", f"logqp over [0, .25] + continued over [.25, .625] through "
@@ -282,7 +290,9 @@ def run_case(case):
     # the library uses a pseudo-inverse, the harness's augmentation a least-squares solve: for an ill-conditioned diffusion
     # matrix they agree to eps * cond(g)^2 only (conditioning of the problem, not of either implementation)
     cond_aug = seen_cond[0]
-    tol_aug = 1e-10 + 1e3 * eps * min(cond_aug, 1e5) ** 2
+    l_user_j = ya_j[1:, :, -1] - ya_j[:-1, :, -1]
+    amp_aug = max(float((l_user - l_user_j).abs().max()) / lscale, float((ya - ya_j)[:, :, :-1].abs().max()) / scale)
+    tol_aug = 1e-10 + 1e3 * eps * min(cond_aug, 1e5) ** 2 + 1e3 * amp_aug
     if not e_aug <= tol_aug:
         return fail("vs_independent_augmentation", f"logqp differs from the user-level augmented SDE solved by the same "
                                                    f"solver: rel {e_aug:.3e} ({solve.combo_label(combo)})")
